@@ -120,7 +120,7 @@ func C06(e *Env) {
 		reqs       []wire.Req
 	}
 	var list []sess
-	nTrees := e.Pick(60, 1500)
+	nTrees := e.Pick(150, 2500)
 	var mu sync.Mutex
 	entriesListed := 0
 	for t := 0; t < nTrees; t++ {
@@ -178,6 +178,33 @@ func C06(e *Env) {
 				mu.Unlock()
 			}
 		}
+		// a second directory opened in the middle of an enumeration: nothing of the first may leak into it
+		if len(dirs) >= 2 {
+			for k := 0; k < 3; k++ {
+				d1, d2 := dirs[rng.Intn(len(dirs))], dirs[rng.Intn(len(dirs))]
+				c1, c2 := 0, 0
+				if n, err := os.ReadDir(filepath.Join(root, d1)); err == nil {
+					c1 = len(n)
+				}
+				if n, err := os.ReadDir(filepath.Join(root, d2)); err == nil {
+					c2 = len(n)
+				}
+				reqs := []wire.Req{wire.P(wire.OpOpenDir, d1)}
+				op := []wire.Op{wire.OpRDE, wire.OpRDE2}[k%2]
+				for i := 0; i < c1/2+k%2; i++ {
+					reqs = append(reqs, wire.Bare(op))
+				}
+				reqs = append(reqs, wire.P(wire.OpOpenDir, d2))
+				if k == 2 {
+					reqs = append(reqs, wire.Bare(wire.OpRDE), wire.Bare(wire.OpReadDir))
+				} else {
+					for i := 0; i < c2+1; i++ {
+						reqs = append(reqs, wire.Bare(op))
+					}
+				}
+				list = append(list, sess{shape, "reopen-mid-enumeration", reqs})
+			}
+		}
 		// OPENDIR truth for non-directories and missing paths, STAT of everything, DIRSIZE of every directory
 		var reqs []wire.Req
 		for _, a := range all {
@@ -187,6 +214,15 @@ func C06(e *Env) {
 			}
 		}
 		reqs = append(reqs, wire.P(wire.OpStat, "/"+name+"/does-not-exist"), wire.P(wire.OpOpenDir, "/"+name+"/does-not-exist"))
+		// paths that fail with something else than ENOENT: beneath a regular file (ENOTDIR), a name
+		// longer than the file system allows (ENAMETOOLONG), NUL
+		for _, a := range all {
+			if st, err := os.Stat(filepath.Join(root, a)); err == nil && !st.IsDir() {
+				reqs = append(reqs, wire.P(wire.OpStat, a+"/beneath/a/file"), wire.P(wire.OpOpenDir, a+"/x"), wire.P(wire.OpDirSize, a+"/x"))
+				break
+			}
+		}
+		reqs = append(reqs, wire.P(wire.OpStat, "/"+name+"/"+strings.Repeat("x", 300)), wire.P(wire.OpOpenDir, "/"+name+"/"+strings.Repeat("y", 256)), wire.P(wire.OpStat, "/"+name+"/nul\x00byte"))
 		for _, d := range dirs {
 			reqs = append(reqs, wire.P(wire.OpDirSize, d))
 		}
